@@ -236,6 +236,30 @@ Definition remediate (reg : registry) : gres registry := map_res (remediate_entr
 Definition finalize (reg : registry) : gres registry :=
   _ <- validate reg ;; reg1 <- flag_cyclic_dependencies reg ;; remediate reg1.
 
+(* ---- cmd/json.go:48-71 RegisterManifests.  The manifests in the order they were read (dependency manifests in
+   filepath.WalkDir order, the input manifest last).  inputDataTypes are the types a project OWNS; dependencyDataTypes are
+   copies of the foreign types it mentions.  First pass: the input types of EVERY manifest, a duplicate is fatal (:49-59);
+   second pass: the dependency types of every manifest, "already registered" is ignored (:65-69, `_ = Register`); then
+   Finalize (:70).  The registry is first-come-first-served, so the two global passes are what makes the owner win whatever
+   the order of the manifests.  [init]: what the process-global registry holds before (the runtime's native types). *)
+Record decl := mkDecl { d_id : ident; d_refs : list ident }.
+Record manifest := mkManifest { m_root : bytes; m_inputs : list decl; m_deps : list decl }.
+
+Definition entry_of (root : bytes) (d : decl) : entry := fresh (d_id d) root (d_refs d).
+Definition input_entries (ms : list manifest) : list entry := flat_map (fun m => map (entry_of (m_root m)) (m_inputs m)) ms.
+Definition dep_entries (ms : list manifest) : list entry := flat_map (fun m => map (entry_of (m_root m)) (m_deps m)) ms.
+
+(* `_ = utils.TypeRegistry.Register(...)` *)
+Definition register_lenient (reg : registry) (t : entry) : registry :=
+  match register reg t with Ok reg' => reg' | _ => reg end.
+
+Definition register_inputs_then_deps (init : registry) (ms : list manifest) : gres registry :=
+  reg1 <- register_all init (input_entries ms) ;;
+  Ok (fold_left register_lenient (dep_entries ms) reg1).
+
+Definition register_manifests (init : registry) (ms : list manifest) : gres registry :=
+  reg <- register_inputs_then_deps init ms ;; finalize reg.
+
 (* ---- what the generator derives from the final registry *)
 Definition out_pkg (e : entry) : bytes := entry_pkg e.                               (* Identifier.PackagePath *)
 Definition out_name (e : entry) : bytes :=                                           (* Identifier.TypeName *)
